@@ -14,11 +14,18 @@
 //!    the application for storing (`InboundRequest::AddProvider { record: Some(..) }` under
 //!    `StoreInserts::FilterBoth`). A legitimate ADD_PROVIDER may only touch the entry
 //!    (key, sender). That legitimate announcements *are* stored is a vacuity guard, not an oracle.
-//!  * a PUT_VALUE with publisher == local node for a key that holds a record published by the
-//!    local node must leave that record unchanged (value, publisher, expiry) and must not be
-//!    offered to the application for overwriting it (FilterBoth). For a key without a local
-//!    record the statement demands nothing; other publishers may overwrite (the code documents
-//!    that it always overrides), which the model follows.
+//!  * a PUT_VALUE with publisher == local node never changes what the local store holds for
+//!    that key — whatever that is: the record published by the local node stays as it is
+//!    (value, publisher, expiry), and a key for which the local node holds *nothing* (never
+//!    published, or withdrawn with `remove_record` / `store_mut().remove`) stays empty: "the
+//!    local record" of a key is decided by the local node alone, a peer naming the local node as
+//!    publisher can neither alter nor (re)create it. Nor may such a record be offered to the
+//!    application for storing (FilterBoth). (An earlier version demanded nothing for keys
+//!    without a local record; that was weaker than the statement.) Other publishers may
+//!    overwrite (the code documents that it always overrides), which the model follows.
+//!  * local actions `LocalRemove` (`Behaviour::remove_record`, `store_mut().remove`) and
+//!    `LocalPut` (the local node publishes again) make both kinds of state reachable for both
+//!    keys; the model follows the store for them.
 
 use crate::drv::{HEvent, Node, NodeCfg, Out, LOCAL};
 use kit::ids::{peer, pidx};
@@ -33,8 +40,8 @@ use std::time::Instant;
 
 pub const META: Meta = Meta {
     level: "model_checking",
-    rule: "BFS over all histories of inbound requests on a fresh real Behaviour per history: AddProvider{sender in {P1,P2,LOCAL} x announced provider in {LOCAL,P1,P2} x 2 keys x 2 address variants} and PutRecord{sender in {P1,P2} x publisher in {none,LOCAL,P1} x key in {key holding a record published by the local node, other key} x 2 values}, for record filtering off and on; states deduplicated on (complete store contents, connections, whether the local record is still intact). Non-trivial = states in which the store differs from the initial one.",
-    explanation: "After every step the complete store and the emitted InboundRequest events are compared with the state before: illegitimate announcements / local-publisher puts must change nothing and offer nothing; legitimate ones may only touch their own entry. An un-deduplicated DFS to a smaller depth re-checks all paths without merging.",
+    rule: "BFS over all histories of inbound requests on a fresh real Behaviour per history: AddProvider{sender in {P1,P2,LOCAL} x announced provider in {LOCAL,P1,P2} x 2 keys x 2 address variants} and PutRecord{sender in {P1,P2} x publisher in {none,LOCAL,P1} x key in {key initially holding a record published by the local node, key initially empty} x 2 values}, local actions LocalRemove{2 keys x {Behaviour::remove_record, store_mut().remove}} and LocalPut{2 keys} (so that for each key the local record is present, never published, withdrawn, or replaced by a foreign replica), for record filtering off and on; states deduplicated on (complete store contents, connections, whether the local record is still intact). Non-trivial = states in which the store differs from the initial one.",
+    explanation: "After every step the complete store and the emitted InboundRequest events are compared with the state before: illegitimate announcements / PUT_VALUEs naming the local node as publisher must change nothing (a present record stays identical, an absent one stays absent) and offer nothing; legitimate ones may only touch their own entry. An un-deduplicated DFS to a smaller depth re-checks all paths without merging.",
     assumptions: &["peers {LOCAL,P1,P2}, 2 keys, MemoryStore default limits (small-scope)", "node in client mode, no routing-table activity, all periodic jobs disabled"],
 };
 
@@ -44,6 +51,10 @@ pub enum Act {
     AddProv(u8, u8, u8, u8),
     /// sender, publisher (9 = none), key, value variant
     Put(u8, u8, u8, u8),
+    /// the local node withdraws its record: key, how (0 = Behaviour::remove_record, 1 = store_mut().remove)
+    LocalRemove(u8, u8),
+    /// the local node stores a record it publishes itself: key
+    LocalPut(u8),
 }
 
 fn key(k: u8) -> RecordKey {
@@ -137,6 +148,11 @@ impl System for Sys {
                 }
             }
         }
+        for k in 0..2 {
+            v.push(Act::LocalRemove(k, 0));
+            v.push(Act::LocalRemove(k, 1));
+            v.push(Act::LocalPut(k));
+        }
         v
     }
     fn step(&mut self, a: &Act) -> Result<(), String> {
@@ -215,16 +231,33 @@ impl System for Sys {
                     self.bump("put_answered");
                 }
                 if publisher == LOCAL {
-                    if had_local {
-                        self.bump("local_publisher_put_on_local_record");
-                        if ar.get(&k) != br.get(&k) {
-                            return Err(format!("local-record-changed-by-put-with-local-publisher:via=store :: {} sent PUT_VALUE(publisher = local node) for key {k}; record {:?} -> {:?}", pname(src), br.get(&k), ar.get(&k)));
-                        }
-                        if offered {
-                            return Err(format!("local-record-changed-by-put-with-local-publisher:via=event :: {} sent PUT_VALUE(publisher = local node) for key {k}; InboundRequest::PutRecord offers the record for storing over the local one", pname(src)));
-                        }
-                    } else {
-                        self.bump(if ar.get(&k) != br.get(&k) || offered { "local_publisher_put_no_local_record_kept" } else { "local_publisher_put_no_local_record_ignored" });
+                    // what the local store holds for the key (a local record, nothing, or a replica
+                    // of somebody else's record) must be exactly what it held before
+                    let state = match br.get(&k) {
+                        None => "absent",
+                        Some(r) if r.1 == Some(LOCAL) => "local-record",
+                        Some(_) => "foreign-record",
+                    };
+                    self.bump(match state {
+                        "absent" => "local_publisher_put_on_absent_key",
+                        "local-record" => "local_publisher_put_on_local_record",
+                        _ => "local_publisher_put_on_foreign_record",
+                    });
+                    if ar.get(&k) != br.get(&k) {
+                        let sig = match state {
+                            "absent" => "record-created-by-put-with-local-publisher:via=store",
+                            "local-record" => "local-record-changed-by-put-with-local-publisher:via=store",
+                            _ => "record-changed-by-put-with-local-publisher:via=store",
+                        };
+                        return Err(format!("{sig} :: {} sent PUT_VALUE(publisher = local node) for key {k} (store held: {state}); record {:?} -> {:?}", pname(src), br.get(&k), ar.get(&k)));
+                    }
+                    if offered {
+                        let sig = match state {
+                            "absent" => "record-created-by-put-with-local-publisher:via=event",
+                            "local-record" => "local-record-changed-by-put-with-local-publisher:via=event",
+                            _ => "record-changed-by-put-with-local-publisher:via=event",
+                        };
+                        return Err(format!("{sig} :: {} sent PUT_VALUE(publisher = local node) for key {k} (store held: {state}); InboundRequest::PutRecord offers the record to the application for storing", pname(src)));
                     }
                 } else {
                     // other publishers: the statement is silent; contrast for the vacuity guard
@@ -241,6 +274,29 @@ impl System for Sys {
                     return Err(format!("put-changed-other-key :: {a:?}: records {br:?} -> {ar:?}"));
                 }
             }
+            Act::LocalRemove(k, how) => {
+                if how == 0 {
+                    self.n.b.remove_record(&key(k));
+                } else {
+                    self.n.b.store_mut().remove(&key(k));
+                }
+                self.n.drain();
+                let (ap, ar) = self.snapshot();
+                self.provs = ap.clone();
+                self.recs = ar.clone();
+                if ap != bp {
+                    return Err(format!("local-remove-changed-providers :: {a:?}: providers {bp:?} -> {ap:?}"));
+                }
+                if br.contains_key(&k) && !ar.contains_key(&k) {
+                    self.bump("local_record_removed");
+                }
+            }
+            Act::LocalPut(k) => {
+                let _ = self.n.b.store_mut().put(Record { key: key(k), value: b"local".to_vec(), publisher: Some(peer(LOCAL)), expires: None });
+                let (ap, ar) = self.snapshot();
+                self.provs = ap;
+                self.recs = ar;
+            }
         }
         Ok(())
     }
@@ -255,7 +311,7 @@ impl System for Sys {
 /// every single action from the initial state and from a "populated" state, with the vacuity
 /// counters collected (the BFS engine does not expose per-step counters)
 fn guard_counters(filter: bool, out: &mut Outcome) {
-    let prefixes: Vec<Vec<Act>> = vec![vec![], vec![Act::AddProv(1, 1, 0, 1), Act::AddProv(2, 2, 0, 0)], vec![Act::Put(1, 1, 0, 0)]];
+    let prefixes: Vec<Vec<Act>> = vec![vec![], vec![Act::AddProv(1, 1, 0, 1), Act::AddProv(2, 2, 0, 0)], vec![Act::Put(1, 1, 0, 0)], vec![Act::LocalRemove(0, 0)], vec![Act::LocalPut(1), Act::LocalRemove(1, 1)]];
     for pre in &prefixes {
         let acts = Sys::new(filter).actions();
         for a in &acts {
@@ -315,7 +371,7 @@ pub fn run(ctx: &Ctx) -> Outcome {
     if (st1.states, st1.transitions) != (st2.states, st2.transitions) {
         out.machinery(format!("NONDETERMINISM: BFS state/transition counts differ between two runs: {:?} vs {:?}", (st1.states, st1.transitions), (st2.states, st2.transitions)));
     }
-    for k in ["legit_provider_in_store", "legit_provider_offered", "illegit_local_provider", "illegit_other_provider", "sender_is_local_id", "local_publisher_put_on_local_record", "local_record_overwritten_by_other_publisher", "put_other_publisher_kept", "put_answered"] {
+    for k in ["legit_provider_in_store", "legit_provider_offered", "illegit_local_provider", "illegit_other_provider", "sender_is_local_id", "local_publisher_put_on_local_record", "local_publisher_put_on_absent_key", "local_publisher_put_on_foreign_record", "local_record_removed", "local_record_overwritten_by_other_publisher", "put_other_publisher_kept", "put_answered"] {
         if out.get(k) == 0 {
             out.machinery(format!("vacuity: counter {k} is zero"));
         }
